@@ -288,6 +288,10 @@ def add_coalescent(parser):
 
 
 def check_arguments(arg, parser):
+    if arg.clock is None and (arg.coalescent is not None or arg.birth_death is not None):
+        parser.error(
+            "coalescent and birth-death tree priors require a time tree: specify --clock"
+        )
     if arg.coalescent in COALESCENT_PIECEWISE:
         piecewise_grid = COALESCENT_PIECEWISE.copy()
         piecewise_grid.remove("skyride")
